@@ -27,6 +27,8 @@ pub enum EvaluationError {
     TypeError(TypeSystemError),
     DivisionByZero,
     IntegerOverflow,
+    /// an expression form the evaluator has no implementation for
+    Unsupported(&'static str),
 }
 
 impl Error for EvaluationError {}
@@ -45,6 +47,7 @@ impl Display for EvaluationError {
             Self::TypeError(err) => write!(f, "Type error: {err}"),
             Self::DivisionByZero => f.write_str("division by zero"),
             Self::IntegerOverflow => f.write_str("integer overflow"),
+            Self::Unsupported(what) => write!(f, "unsupported expression: {what}"),
         }
     }
 }
@@ -158,9 +161,7 @@ impl<'a> ExpressionEvaluator<'a> {
                     _ => DataType::Null,
                 }])
             }
-            BoundExpression::Exists { query, negated } => {
-                todo!("Subquery evaluation is not yet implemented")
-            }
+            BoundExpression::Exists { .. } => Err(EvaluationError::Unsupported("EXISTS (sub-query)")),
             BoundExpression::InList {
                 expr,
                 list,
@@ -191,15 +192,11 @@ impl<'a> ExpressionEvaluator<'a> {
                 }
                 Ok(vec![DataType::Bool(Bool(found != *negated))])
             }
-            BoundExpression::Subquery { query, result_type } => {
-                todo!("Subquery evaluation is not yet implemented")
+            BoundExpression::Subquery { .. } => {
+                Err(EvaluationError::Unsupported("scalar sub-query"))
             }
-            BoundExpression::InSubquery {
-                expr,
-                query,
-                negated,
-            } => {
-                todo!("Subquery evaluation is not yet implemented")
+            BoundExpression::InSubquery { .. } => {
+                Err(EvaluationError::Unsupported("IN (sub-query)"))
             }
             BoundExpression::Function {
                 func,
